@@ -18,6 +18,7 @@ import (
 	"strings"
 	"syscall"
 	"time"
+	"unicode"
 
 	"golang.org/x/perf/benchstat"
 	"golang.org/x/perf/internal/stats"
@@ -256,8 +257,12 @@ func dump(id int, call int, c *benchstat.Collection, tables []*benchstat.Table) 
 			for k, m := range r.Metrics {
 				ms[k] = dumpMetric(m)
 			}
-			out = append(out, fmt.Sprintf("t=%d r=%d b=%s g=%s ms=%s pd=%s d=%s n=%s c=%d", i, j, hx.HexS(r.Benchmark), hx.HexS(r.Group),
-				strings.Join(ms, ";"), canon(r.PctDelta), hx.HexS(r.Delta), hx.HexS(r.Note), r.Change))
+			fm := make([]string, len(r.Metrics))
+			for k, m := range r.Metrics {
+				fm[k] = hx.HexS(m.Format(r.Scaler))
+			}
+			out = append(out, fmt.Sprintf("t=%d r=%d b=%s g=%s ms=%s pd=%s d=%s n=%s c=%d fm=%s", i, j, hx.HexS(r.Benchmark), hx.HexS(r.Group),
+				strings.Join(ms, ";"), canon(r.PctDelta), hx.HexS(r.Delta), hx.HexS(r.Note), r.Change, strings.Join(fm, ";")))
 		}
 	}
 	return out
@@ -557,9 +562,45 @@ func execCase(id int, tc *tcase) (out caseOut) {
 		lines = append(lines, fmt.Sprintf("obs %d text=%s", id, hx.Hex(tb.Bytes())))
 		lines = append(lines, fmt.Sprintf("obs %d csv=%s", id, hx.Hex(cb.Bytes())))
 		lines = append(lines, fmt.Sprintf("obs %d csvnr=%s", id, hx.Hex(cnb.Bytes())))
-		lines = append(lines, fmt.Sprintf("sobs %d stats1=ok stats2=ok tabs1=ok tabs2=ok same=1", id))
+		lines = append(lines, fmt.Sprintf("sobs %d stats1=ok stats2=ok tabs1=ok tabs2=ok same=1 viaconfig=%d", id, viaConfig(id, tc, d1)))
 	}()
 	return caseOut{lines: lines, crashed: crashed}
+}
+
+
+// viaConfig feeds the same lines through Collection.AddConfig (the benchfmt reader path) and reports
+// whether Tables() gives the same dump as through AddResults.  Applicable when no result carries labels
+// (SplitBy empty) and no line starts with white space (the reader takes the name up to the first space).
+func viaConfig(id int, tc *tcase, d1 []string) int {
+	if len(tc.split) > 0 {
+		return 1
+	}
+	for _, r := range tc.results {
+		if r.content == "" || strings.TrimLeftFunc(r.content, unicode.IsSpace) != r.content || strings.ContainsAny(r.content, "\n\r") {
+			return 1
+		}
+	}
+	c := &benchstat.Collection{Alpha: tc.alpha, AddGeoMean: tc.geo, DeltaTest: tc.deltaTest(), Order: mkOrder(tc.order)}
+	for i, name := range tc.cfgs {
+		var sb strings.Builder
+		for _, r := range tc.results {
+			if r.cfg == i {
+				sb.WriteString(r.content)
+				sb.WriteString("\n")
+			}
+		}
+		c.AddConfig(name, []byte(sb.String()))
+	}
+	d := dump(id, 1, c, c.Tables())
+	if len(d) != len(d1) {
+		return 0
+	}
+	for i := range d {
+		if d[i] != d1[i] {
+			return 0
+		}
+	}
+	return 1
 }
 
 func b2i(b bool) int {
@@ -663,7 +704,11 @@ func genCase(r *hx.Rand) *tcase {
 			} else {
 				p.units = append(p.units, hx.Pick(r, unitPool))
 			}
-			p.base = append(p.base, math.Round(math.Exp(r.Float()*14)*100)/100)
+			b := math.Round(math.Exp(r.Float()*14)*100) / 100
+			if r.Chance(1, 3) { // spread over every range of the scalers: ns..s, unit..T
+				b *= math.Pow(10, float64(r.Intn(9)))
+			}
+			p.base = append(p.base, b)
 		}
 		p.kind = hx.Pick(r, []int{0, 0, 0, 0, 1, 2, 2, 3, 4, 5})
 		if len(tc.split) > 0 {
@@ -758,6 +803,8 @@ func genCase(r *hx.Rand) *tcase {
 					sb.WriteString(hx.Pick(r, seps))
 					if r.Chance(1, 40) {
 						sb.WriteString(hx.Pick(r, oddVals))
+					} else if p.kind == 1 {
+						sb.WriteString(strconv.FormatFloat(v, 'g', -1, 64)) // constants stay constant (zero variance)
 					} else {
 						sb.WriteString(fmtVal(r, v))
 					}
